@@ -223,6 +223,11 @@ def mutants(name, ini):
             for nv, op in ((v + ' +', 'formula-unparsable'), ('(' + v, 'formula-unparsable'), (v + ' * undefined_q', 'formula-unknown-variable'),
                            (v + ' + nosuch(r)', 'formula-unknown-function'), (v + ' + as.buck(r, 1.0)', 'formula-call-arity'),
                            (v + ' + pymath.nosuch(r)', 'formula-unknown-function'), ('', 'formula-empty'),
+                           # the same errors inside the block syntax of the formula language
+                           ('if (r > 1.0) { %s; } else { %s + nosuch(r); }' % (v, v), 'formula-unknown-function-in-braces'),
+                           ('if (r > 1.0) { %s; } else { %s + as.buck(r, 1.0); }' % (v, v), 'formula-call-arity-in-braces'),
+                           ('if (r > 1.0) { %s; } else { %s +; }' % (v, v), 'formula-unparsable-in-braces'),
+                           ('if (r > 1.0) { %s; } else { %s * undefined_q; }' % (v, v), 'formula-unknown-variable-in-braces'),
                            (v + ' + pymath.log(r, 2, 2)', 'formula-call-arity:pymath'), (v + ' + pymath.sqrt(r, 2)', 'formula-call-arity:pymath'), (v + ' + pymath.atan2(r)', 'formula-call-arity:pymath')):
                 out.append(setv('Potential-Form', k, nv, op))
         if len(pf[1]) >= 2:
